@@ -3,7 +3,9 @@ package props
 import (
 	"bytes"
 	"encoding/hex"
+	"encoding/json"
 	"fmt"
+	"github.com/ElrondNetwork/elrond-vm-common/mock"
 	"math/big"
 	"reflect"
 	"sort"
@@ -89,6 +91,13 @@ func runC20(c *harness.Ctx) {
 				}
 				if cm != (vmcommon.CodeMetadata{}) || g.Paused || um.Frozen {
 					R.Distinct(uint64(p))
+				}
+				// the byte form belongs to the caller (the library itself hands it to the protobuf
+				// decoder, which may write into it): scribbling over it affects no later encoding
+				for _, x := range [][]byte{enc, ge, ue} {
+					for i := range x {
+						x[i] = 0xa5
+					}
 				}
 			})
 			R.Cover("C20/pairs")
@@ -720,6 +729,15 @@ func runC14(c *harness.Ctx) {
 			if err != nil || !eqBigNilZero(v, back) {
 				R.Violate("C14:amount-roundtrip", fmt.Sprintf("Unmarshal(MarshalTo(%v)) = %v (%v)", v, back, err), fmt.Sprint(v))
 			}
+			// into a buffer that is not zeroed: all Size() bytes are written
+			for _, fill := range []byte{0xff, 0x01} {
+				dirty := bytes.Repeat([]byte{fill}, sz+3)
+				n, err := caster.MarshalTo(v, dirty)
+				if err != nil || n != sz || !bytes.Equal(dirty[:n], want) {
+					R.Violate("C14:amount-encode-dirty-buffer", fmt.Sprintf("MarshalTo(%v) into a buffer pre-filled with %02x = %x (n=%d err=%v), documented format %x", v, fill, dirty[:min(n, len(dirty))], n, err, want), fmt.Sprint(v))
+					break
+				}
+			}
 			// too small a buffer must be an error, never a panic
 			if v != nil && sz > 1 {
 				if _, err := caster.MarshalTo(v, make([]byte, len(v.Bytes()))); err == nil && len(v.Bytes()) > 0 {
@@ -813,6 +831,22 @@ func runC14(c *harness.Ctx) {
 				n, err := e.MarshalTo(buf)
 				if err != nil || n != len(got) || !bytes.Equal(buf[:n], got) {
 					R.Violate("C14:marshalto", fmt.Sprintf("MarshalTo into a buffer of Size()+%d returned n=%d err=%v and buf[:n]=%x, Marshal() gives %x", extra, n, err, buf[:min(n, len(buf))], got), hex.EncodeToString(got))
+				}
+				// a reused (not zeroed) buffer, as a pooled buffer or a long-lived proto.Buffer hands over:
+				// every one of the n bytes is written
+				for _, fill := range []byte{0xff, 0x01, 0x5a} {
+					dirty := bytes.Repeat([]byte{fill}, len(got)+extra)
+					n, err := e.MarshalTo(dirty)
+					if err != nil || n != len(got) || !bytes.Equal(dirty[:n], got) {
+						R.Violate("C14:marshalto-dirty-buffer", fmt.Sprintf("MarshalTo into a buffer of Size()+%d pre-filled with %02x returned n=%d err=%v and buf[:n]=%x, Marshal() gives %x", extra, fill, n, err, dirty[:min(n, len(dirty))], got), hex.EncodeToString(got))
+						break
+					}
+				}
+			}
+			{
+				dirty := bytes.Repeat([]byte{0xa7}, len(got))
+				if n, err := e.MarshalToSizedBuffer(dirty); err != nil || n != len(got) || !bytes.Equal(dirty, got) {
+					R.Violate("C14:marshalto-dirty-buffer", fmt.Sprintf("MarshalToSizedBuffer into a pre-filled buffer returned n=%d err=%v buf=%x, Marshal() gives %x", n, err, dirty, got), hex.EncodeToString(got))
 				}
 			}
 			{
@@ -967,12 +1001,23 @@ func hostileLengthInputs(valid []byte) [][]byte {
 		return append(b, byte(v))
 	}
 	lens := []uint64{0, 1, 127, 128, 1<<31 - 1, 1 << 31, 1<<32 - 1, 1 << 32, 1<<62 - 1, 1 << 62, 1<<63 - 1, 1 << 63, 1<<63 + 1, ^uint64(0) - 1, ^uint64(0)}
+	// lengths just below 2^63: header + length fits an int, offset + header + length does not
+	for k := uint64(1); k <= 48; k++ {
+		lens = append(lens, 1<<63-1-k)
+	}
+	validMeta := []byte{0x08, 0x03, 0x12, 0x01, 'n', 0x2a, 0x01, 'h'}
+	validRoles := []byte{0x0a, 0x01, 'A', 0x0a, 0x02, 'B', 'C'}
 	var out [][]byte
 	for field := 1; field <= 9; field++ {
 		for _, wt := range []int{0, 1, 2, 3, 4, 5, 6, 7} {
 			tag := varint(uint64(field<<3 | wt))
 			for _, l := range lens {
 				in := append(append([]byte{}, tag...), varint(l)...)
+				// behind valid prefixes of each of the three messages (offset > 0), plain and nested
+				for _, pre := range [][]byte{validMeta, validRoles, {0x08, 0x07}, validMeta[:2]} {
+					pin := append(append([]byte{}, pre...), in...)
+					out = append(out, pin, append(append([]byte{0x22}, varint(uint64(len(pin)))...), pin...))
+				}
 				// the same entry inside an (unknown) group opened by a start-group tag, closed or not,
 				// and inside two nested groups
 				for _, gf := range []int{9, field} {
@@ -1056,6 +1101,7 @@ func runC12(c *harness.Ctx) {
 	dp := parsers.NewDeployArgsParser()
 	sp := parsers.NewStorageUpdatesParser()
 	xp, _ := parsers.NewESDTTransferParser(world.PlainCodec{})
+	xpJSON, _ := parsers.NewESDTTransferParser(&mock.MarshalizerMock{})
 	alpha := []byte{'x', '@', 'a', 'A', '1', ' '}
 	maxLen := c.Scale(7, 8)
 	count := 0
@@ -1349,8 +1395,16 @@ func runC12(c *harness.Ctx) {
 			}
 			trs = append(trs, tr{id: []byte(fmt.Sprintf("TOK-%06x", r.Intn(3))), nonce: n, val: values[r.Intn(len(values))]})
 		}
+		// every third case runs through a parser built on the JSON marshaller (the one the
+		// repository's own mocks provide: it decodes INTO whatever the target already points to)
+		useJSON := wi%3 == 2
 		payload := func(t tr) []byte {
-			b, _ := libTokenFromRef(&refcodec.Token{Type: 1, Value: t.val, Meta: &refcodec.MetaData{Nonce: t.nonce, Name: []byte("n"), Hash: []byte("h")}}).Marshal()
+			e := libTokenFromRef(&refcodec.Token{Type: 1, Value: t.val, Meta: &refcodec.MetaData{Nonce: t.nonce, Name: []byte("n"), Hash: []byte("h")}})
+			if useJSON {
+				b, _ := json.Marshal(e)
+				return b
+			}
+			b, _ := e.Marshal()
 			return b
 		}
 		snd, rcv := addrA, addrB
@@ -1386,7 +1440,12 @@ func runC12(c *harness.Ctx) {
 		}
 		args = append(args, call...)
 		guard(R, "C12", "esdt-transfer-parser:well-formed", func() interface{} { return node.BuildData(fn, args) }, func() {
-			rep, err := xp.ParseESDTTransfers(snd, rcv, fn, args)
+			parser := xp
+			if useJSON {
+				parser = xpJSON
+				R.Cover("C12/xfer-parser-well-formed-json-marshaller")
+			}
+			rep, err := parser.ParseESDTTransfers(snd, rcv, fn, args)
 			if err != nil || rep == nil {
 				R.Violate("C12:xfer-parser-rejects-well-formed:"+fn, fmt.Sprintf("the ESDT-transfer parser rejects a well-formed %s call: %v", fn, err), node.BuildData(fn, args))
 				return
@@ -1743,15 +1802,46 @@ func runC18(c *harness.Ctx) {
 		}
 	}
 	// ---- registry: exactly the 23 protocol names ----
-	for cfg := 0; cfg < 6; cfg++ {
+	for cfg := 0; cfg < 9; cfg++ {
 		ci++
 		if !mine(c, ci) {
 			continue
 		}
-		w, err := world.New(world.Config{NumShards: uint32(1 + cfg%3), ActivationEpoch: uint32(cfg), EnableNameChg: cfg%2 == 0, DNS: [][]byte{gen.UserAddr(9, 0)}})
+		// DNS sets of one, none (an empty, non-nil map is a valid configuration) and three addresses
+		dns := [][][]byte{{gen.UserAddr(9, 0)}, {}, {gen.UserAddr(9, 0), gen.UserAddr(8, 0), gen.UserAddr(7, 0)}}[cfg%3]
+		w, err := world.New(world.Config{NumShards: uint32(1 + cfg%3), ActivationEpoch: uint32(cfg), EnableNameChg: cfg%2 == 0, DNS: dns})
 		if err != nil {
 			R.Violate("C18:factory-fails", "factory rejects a valid configuration: "+err.Error(), cfg)
 			continue
+		}
+		// the factory is asked for a container AGAIN after the first one was used and modified by its
+		// owner (handlers set, a schedule change, a name added, one replaced, one removed): what it
+		// builds then is again the complete, correctly bound registry
+		if cfg >= 3 {
+			for _, sh := range w.Shards {
+				first := sh.Container
+				w.GasScheduleChange(world.GasMapFrom(func(_, _ string, i int) uint64 { return 4000 + uint64(i) }))
+				tr, _ := first.Get(FTransfer)
+				_ = first.Add("customFunction", tr)
+				if wipe, err := first.Get(FWipe); err == nil {
+					_ = first.Replace(FTransfer, wipe)
+				}
+				first.Remove(FWipe)
+				first.Remove(FSetName)
+				second, err := sh.Factory.CreateBuiltInFunctionContainer()
+				if err != nil {
+					R.Violate("C18:factory-fails", "a second CreateBuiltInFunctionContainer fails: "+err.Error(), cfg)
+					continue
+				}
+				_ = builtInFunctions.SetPayableHandler(second, &world.PayableOracle{W: w})
+				sh.Container = second
+				if f2, err := second.Get(FTransfer); err == nil {
+					if w1, err := first.Get(FTransfer); err == nil && f2 == w1 {
+						R.Violate("C18:registry-names", "after a second CreateBuiltInFunctionContainer the name ESDTTransfer is bound to the object the owner of the FIRST container put there", cfg)
+					}
+				}
+				R.Cover("C18/second-container-checks")
+			}
 		}
 		for _, sh := range w.Shards {
 			keys := sh.Container.Keys()
